@@ -87,32 +87,38 @@ def run(repo: Repo, chk: Check):
     chkfn = cp.func("CompilerPassHandleConstexpr.check_constexpr_function")
     chk.saw("compile_pass", chkfn.qual)
     searches = [c for c in ast.walk(chkfn) if isinstance(c, ast.Call) and norm(c.func) in ("re.search", "re.match", "re.fullmatch", "re.findall", "re.compile")]
-    if len(searches) != 1:
+    if len(searches) == 0:
+        chk.bad("R12.a", "compile_pass:check_constexpr_function:pattern covers open/eval/exec as whole words",
+                "the function source is no longer searched as text for the words open, eval and exec: a check on selected syntax nodes misses other "
+                "spellings (builtins.eval, io.open, 'from builtins import exec as e')", None, f"{cp.path}:{chkfn.lineno} in check_constexpr_function")
+        searches = None
+    elif len(searches) != 1:
         raise AnalysisError("check_constexpr_function: expected one regular-expression test")
-    sc = searches[0]
-    where = f"{cp.path}:{sc.lineno} in check_constexpr_function"
-    pat = sc.args[0].value if sc.args and isinstance(sc.args[0], ast.Constant) else None
-    if not isinstance(pat, str):
-        raise AnalysisError("check_constexpr_function: pattern is not a string literal")
-    got = regex_words(pat)
-    ok, why = False, f"pattern {pat!r} has an unrecognised shape"
-    if got:
-        words, lead, rest = got
-        missing = BANNED - words
-        trailing_ok = rest in ([], [(sre_c.AT, sre_c.AT_BOUNDARY)])
-        ok = not missing and trailing_ok
-        why = (f"pattern {pat!r}: " + (f"does not cover {sorted(missing)}; " if missing else "") +
-               ("" if trailing_ok else "requires more than the bare word (e.g. a following '('), so 'run = eval' passes"))
-    chk.judge("R12.a", "compile_pass:check_constexpr_function:pattern covers open|eval|exec as whole words", ok, why, {"pattern": pat}, where)
-    chk.judge("R12.a", "compile_pass:check_constexpr_function:searches the whole function source",
-              norm(sc.func) == "re.search" and len(sc.args) >= 2 and norm(sc.args[1]).endswith(".as_string()") and not sc.keywords,
-              f"test is {norm(sc)[:80]}", None, where)
-    par = sc
-    while par is not None and not isinstance(par, ast.If):
-        par = getattr(par, "parent", None)
-    raises = par is not None and any(isinstance(x, ast.Raise) and "CompilerError" in norm(x) for x in par.body) and any(sc is x for x in ast.walk(par.test)) \
-        and not isinstance(par.test, ast.UnaryOp)
-    chk.judge("R12.a", "compile_pass:check_constexpr_function:a match raises CompilerError", raises, "a match does not raise CompilerError", None, where)
+    if searches is not None:
+        sc = searches[0]
+        where = f"{cp.path}:{sc.lineno} in check_constexpr_function"
+        pat = sc.args[0].value if sc.args and isinstance(sc.args[0], ast.Constant) else None
+        if not isinstance(pat, str):
+            raise AnalysisError("check_constexpr_function: pattern is not a string literal")
+        got = regex_words(pat)
+        ok, why = False, f"pattern {pat!r} has an unrecognised shape"
+        if got:
+            words, lead, rest = got
+            missing = BANNED - words
+            trailing_ok = rest in ([], [(sre_c.AT, sre_c.AT_BOUNDARY)])
+            ok = not missing and trailing_ok
+            why = (f"pattern {pat!r}: " + (f"does not cover {sorted(missing)}; " if missing else "") +
+                   ("" if trailing_ok else "requires more than the bare word (e.g. a following '('), so 'run = eval' passes"))
+        chk.judge("R12.a", "compile_pass:check_constexpr_function:pattern covers open|eval|exec as whole words", ok, why, {"pattern": pat}, where)
+        chk.judge("R12.a", "compile_pass:check_constexpr_function:searches the whole function source",
+                  norm(sc.func) == "re.search" and len(sc.args) >= 2 and norm(sc.args[1]).endswith(".as_string()") and not sc.keywords,
+                  f"test is {norm(sc)[:80]}", None, where)
+        par = sc
+        while par is not None and not isinstance(par, ast.If):
+            par = getattr(par, "parent", None)
+        raises = par is not None and any(isinstance(x, ast.Raise) and "CompilerError" in norm(x) for x in par.body) and any(sc is x for x in ast.walk(par.test)) \
+            and not isinstance(par.test, ast.UnaryOp)
+        chk.judge("R12.a", "compile_pass:check_constexpr_function:a match raises CompilerError", raises, "a match does not raise CompilerError", None, where)
     hd = cp.func("CompilerPassHandleConstexpr.handle_decorators")
     chk.saw("compile_pass", hd.qual)
     cfg = CFG(hd)
